@@ -25,6 +25,14 @@ func verifDir() string {
 	return "/verif"
 }
 
+// outRoot is where replay files, failed scripts and replay sources go (GOVC_OUT lets concurrent runs keep apart).
+func outRoot() string {
+	if d := os.Getenv("GOVC_OUT"); d != "" {
+		return d
+	}
+	return filepath.Join(verifDir(), "out")
+}
+
 func usage() {
 	fmt.Fprintln(os.Stderr, `usage:
   govc check <property> [--tier quick|thorough]
@@ -107,7 +115,7 @@ func cmdFn(args []string) {
 		s, _ := r.Enc.script(*timeout)
 		_ = os.WriteFile(*dump, []byte(s), 0o644)
 	}
-	solveFn(r, solveOpts{timeoutMs: *timeout, workers: 8, keepDir: filepath.Join(verifDir(), "out", "failed")})
+	solveFn(r, solveOpts{timeoutMs: *timeout, workers: 8, keepDir: filepath.Join(outRoot(), "failed")})
 	if r.Err != "" {
 		fmt.Println("ERROR:", r.Err)
 		os.Exit(2)
